@@ -117,12 +117,7 @@ type c07Index interface {
 	NewIterator(*Options) Iterator
 }
 
-func c07N() int {
-	if sym.Tier() > 0 {
-		return 4
-	}
-	return 3
-}
+func c07N() int { return 3 }
 
 func c07Build(idx c07Index) []c07Rec {
 	var spec []c07Rec
@@ -248,9 +243,6 @@ func c07Growth(idx c07Index, which string) {
 		spec = c07Insert(spec, c07Rec{key: key, val: b})
 	}
 	nsym := 1
-	if sym.Tier() > 0 {
-		nsym = 2
-	}
 	for i := 0; i < nsym; i++ {
 		key := kv.InternalKey(kv.CFDefault, []byte{sym.U8("key_byte")}, uint64(sym.SymInt("key_version", 1, 3)))
 		v := sym.U8("payload")
